@@ -996,9 +996,29 @@ class Body:
         """Cheap infeasibility filter: a path may not take contradictory edges on two discriminant tests of the
         same (canonical, never reassigned) place."""
         known = {}
+        flags = {}      # local -> constant it holds at this point of the path (`matches!(..)` leaves such a flag)
         for a, b in zip(path, path[1:]):
+            for st in self.blocks[a]["stmts"]:
+                if st["k"] == "assign" and not st["lhs"]["p"]:
+                    rv = st["rv"]
+                    if rv["k"] == "use" and rv["op"].get("k") == "const" and isinstance(rv["op"].get("val"), bool):
+                        flags[st["lhs"]["l"]] = rv["op"]["val"]
+                    else:
+                        flags.pop(st["lhs"]["l"], None)
+                elif st["k"] == "assign":
+                    flags.pop(st["lhs"]["l"], None)
             t = self.term(a)
+            if t["k"] == "call" and t.get("dest"):
+                flags.pop(t["dest"]["l"], None)
             if t["k"] != "switch":
+                continue
+            if t.get("ty") == "bool" and t["op"].get("k") in ("move", "copy") and not t["op"]["pl"]["p"] and t["op"]["pl"]["l"] in flags \
+                    and not self._addr_taken(t["op"]["pl"]["l"]):
+                want = int(flags[t["op"]["pl"]["l"]])
+                tg = [x for v, x in t["targets"] if v == want]
+                nxt = tg[0] if tg else t["otherwise"]
+                if nxt is not None and b != nxt:
+                    return False
                 continue
             si = self.switch_info(a)
             if not si or si["kind"] != "discr":
@@ -1023,6 +1043,13 @@ class Body:
             else:
                 known[key] = allowed
         return True
+
+    def _addr_taken(self, l):
+        c = self.__dict__.setdefault("_addr_cache", {})
+        if l not in c:
+            c[l] = any(st["k"] == "assign" and st["rv"]["k"] in ("ref", "addr") and st["rv"]["pl"]["l"] == l and (st["rv"]["k"] == "addr" or st["rv"].get("mut"))
+                       for i in self.reach for st in self.blocks[i]["stmts"])
+        return c[l]
 
     def line_of(self, bb):
         return self.term(bb).get("cline") or self.term(bb).get("line")
@@ -1078,6 +1105,23 @@ def _place_key(pl):
     return ".".join(parts)
 
 
+_INTS = {"u8", "u16", "u32", "u64", "u128", "usize", "i8", "i16", "i32", "i64", "i128", "isize"}
+
+
+def int_widening(t):
+    """Target type if the call terminator is `<T as From<U>>::from` (or `<U as Into<T>>::into`) between primitive integers
+    (the standard library only provides the lossless ones), else None."""
+    c = t.get("callee") or {}
+    if c.get("krate") != "core" or len(t.get("ops") or []) != 1:
+        return None
+    a = c.get("args") or []
+    if c.get("def") == "std::convert::From::from" and len(a) == 2 and a[0] in _INTS and a[1] in _INTS:
+        return a[0]
+    if c.get("def") == "std::convert::Into::into" and len(a) == 2 and a[0] in _INTS and a[1] in _INTS:
+        return a[1]
+    return None
+
+
 def symex(body, x, depth=0):
     """Small symbolic expression of an operand / place by following single whole-definitions:
     ('const', v) ('uneval', def, self_ty, eval) ('bin', op, a, b) ('un', op, a) ('cast', ty, a)
@@ -1126,6 +1170,9 @@ def symex(body, x, depth=0):
             lit = body._variant_literal_ops(t["ops"][0]["pl"]["l"], [{"dc": want}, {"f": 0}])
             if lit is not None and len(lit[0]) == 1:
                 return symex(body, lit[0][0], depth + 1)
+        if not proj and int_widening(t) is not None:
+            # `usize::from(x)` between primitive integers is the lossless `x as usize`
+            return ("cast", int_widening(t), symex(body, t["ops"][0], depth + 1))
         if not proj:
             return ("call", callee_resolved(t) or "?", [symex(body, o, depth + 1) for o in t["ops"]])
     # a value chosen between constants by the variant of some place (`x.map(|_| 1).unwrap_or(0)` expanded, a hand-written
